@@ -394,3 +394,12 @@ for _p in ("C01", "C03"):
     PROPS[_p]["modules"] = PROPS[_p]["modules"] + ["SyncCheck"]
     PROPS[_p]["runners"] = PROPS[_p]["runners"] + [{"name": "SYNC01", "synctest": True}]
     PROPS[_p]["rule"] += (" Runner SYNC01 (gated, real time): the client is online with a silent broker (the read routine parked in conn.Read without a deadline) when a persisted publish meets a write error that is not a close-type error; judged by sync_ok_c01: ReadSlices comes back, the redial succeeds, and the PUBLISH goes out on the second connection; the trace is accepted by the L3 monitor.")
+
+# C06 at the session level: the stream stays aligned through Persistence faults and reconnects
+PROPS["C06"]["modules"] = PROPS["C06"]["modules"] + ["HistChecks"]
+PROPS["C06"]["runners"] = PROPS["C06"].get("runners", [{"name": "C06"}]) + [{"name": "C06S", "synctest": True}]
+PROPS["C06"]["rule"] += (" Second runner C06S (M-seq): sequential histories of the whole client with inbound streams of all three levels, big messages, Persistence faults (3-15 %) at the reception markers, connection faults and restarts; compared with the session model and judged by c06s_ok: nothing is returned that the broker did not send (no_forged_delivery), a well-formed stream is not answered with a protocol reset (no_false_reset), and on each connection no QoS 0/1 PUBLISH before a returned one was skipped (no_loss).")
+# C18: the gated connect scenarios (a persisted publish inside Persistence.Save while the redial completes)
+PROPS["C18"]["modules"] = PROPS["C18"]["modules"] + ["SyncCheck"]
+PROPS["C18"]["runners"] = PROPS["C18"].get("runners", [{"name": "C18", "synctest": True}]) + [{"name": "SYNC10", "synctest": True}]
+PROPS["C18"]["rule"] += (" Runner SYNC10 (gated scenarios and concurrent runs, as for C10): among them a persisted publish that is inside Persistence.Save while the redial receives its CONNACK - requests issued during a connect attempt must come back, and the connect must complete.")
